@@ -119,6 +119,10 @@ Vector<std::complex<T>> permanent_laplace_cpp(
 
     // determine the concurrency of the calculation
     unsigned int n_threads = std::thread::hardware_concurrency();
+    // NOTE: `hardware_concurrency` returns 0 when the value is not computable, which
+    // would result in 0 jobs (and a permanent of 0).
+    if (n_threads == 0)
+        n_threads = 1;
     auto concurrency = static_cast<int64_t>(n_threads * 4);
     concurrency = concurrency < idx_max ? concurrency : idx_max;
 
